@@ -260,6 +260,9 @@ static int apply (int op)
     OrcProgram *p = make_prog (j);
     OrcCompileResult r = orc_program_compile (p);
     OrcCode *code;
+    /* program 0 is compiled a second time while it still owns the code of the first compile (no reset in between): the
+     * first code object has to go back to the allocator */
+    if (j == 0 && ORC_COMPILE_RESULT_IS_SUCCESSFUL (r)) r = orc_program_compile (p);
     if (!ORC_COMPILE_RESULT_IS_SUCCESSFUL (r)) { snprintf (vmsg, sizeof vmsg, "probe program %d did not compile (%d)", j, r); orc_program_free (p); return 5; }
     code = orc_program_take_code (p);
     orc_program_free (p);
